@@ -25,6 +25,9 @@ var (
 	flagReplay  = flag.String("replay", "", "replay file")
 	flagReplays = flag.String("replaydir", "/verif/replays", "where replay files go")
 	flagDump    = flag.Bool("dump", false, "print per-run digests (determinism self-test)")
+	flagGoldOut = flag.String("goldenout", "", "goldengen: output directory")
+	flagGoldBy  = flag.String("goldenwriter", "", "goldengen: commit of the build linked in")
+	flagGoldN   = flag.Int("goldenn", 36, "goldengen: number of histories")
 )
 
 // WorkerResult is what one worker process reports to the driver.
@@ -104,6 +107,18 @@ func firstUserFrame(stack string) string {
 		return l
 	}
 	return ""
+}
+
+// TestGoldenGen writes the golden corpus of C18 with the build this binary was linked against.
+func TestGoldenGen(t *testing.T) {
+	if *flagGoldOut == "" {
+		t.Skip("no -goldenout")
+	}
+	w, s, err := GenerateGolden(*flagGoldOut, *flagGoldBy, *flagGoldN)
+	if err != nil {
+		t.Fatal(err)
+	}
+	fmt.Printf("goldengen: %d histories written, %d skipped\n", w, s)
 }
 
 func TestWorker(t *testing.T) {
